@@ -59,6 +59,13 @@ type tS struct {
 	M map[string]int32 `thrift:"4"`
 }
 
+// wide field-id span with a required field (the decoder tracks seen required fields per call)
+type tW struct {
+	A int32  `thrift:"1,required"`
+	B string `thrift:"100,required"`
+	C []tS   `thrift:"70"`
+}
+
 type tR struct {
 	V    int64 `thrift:"1"`
 	Next *tR   `thrift:"2"`
@@ -212,6 +219,7 @@ var (
 	valN  = func() any { return &pN{V: 1, Next: &pN{V: 2}, Tags: map[int32]string{3: "t"}} }
 	valTS = func() any { return tS{A: 1, B: "b", L: []int64{1, 2}, M: map[string]int32{"k": 5}} }
 	valTR = func() any { return tR{V: 1, Next: &tR{V: 2}} }
+	valTW = func() any { return tW{A: 1, B: "b", C: []tS{{A: 2, M: map[string]int32{"k": 1}}}} }
 )
 
 var docA = `{"x":1,"next":{"x":2,"s":"in\"ner"},"s":"outer"}`
@@ -305,6 +313,24 @@ func drivers() []driver {
 		}, 3, 4, func() []call {
 			return []call{jsonMarshal("B", valB), jsonMarshal("C", valC), jsonTokenize(`[[[1]]]`)}
 		}},
+		{"shared-decode-warm", func() [][]call {
+			bw := mustThrift(valTW())
+			return [][]call{
+				{thriftUnmarshal("W", bw, func() any { return new(tW) }), jsonUnmarshal("A", docA, func() any { return new(jA) })},
+				{thriftUnmarshal("W", bw, func() any { return new(tW) }), protoUnmarshal("N", mustProtoOnce(), func() any { return new(pN) })},
+				{jsonUnmarshal("A", docA, func() any { return new(jA) }), protoUnmarshal("N", mustProtoOnce(), func() any { return new(pN) })},
+			}
+		}, 3, 4, func() []call {
+			return []call{thriftUnmarshal("W", mustThrift(valTW()), func() any { return new(tW) }), jsonUnmarshal("A", docA, func() any { return new(jA) }), protoUnmarshal("N", mustProtoOnce(), func() any { return new(pN) })}
+		}},
+		{"shared-decode-first-use", func() [][]call {
+			bw := mustThrift(valTW())
+			return [][]call{
+				{thriftUnmarshal("W", bw, func() any { return new(tW) })},
+				{thriftUnmarshal("W", bw, func() any { return new(tW) })},
+				{thriftMarshal("W", false, valTW)},
+			}
+		}, 99, 99, nil},
 		{"mixed", func() [][]call {
 			return [][]call{
 				{jsonMarshal("C", valC), protoSize("M", valM)},
